@@ -172,6 +172,21 @@ impl<T: Qcow2IoOps> Qcow2Dev<T> {
     ) -> Qcow2Result<usize> {
         match mapping.cluster_offset {
             Some(off) => {
+                // A new cluster is mapped before its stale content is zeroed by the
+                // first writer: nothing has been written to it until then, so it
+                // reads as zero. If zeroing is in progress, wait for it, since the
+                // writer holds this lock until that is done.
+                {
+                    let cls_map = self.new_cluster.read().await;
+                    if let Some(cluster) = cls_map.get(&(off >> self.info.cluster_bits())) {
+                        let zeroing_started = cluster.read().await;
+                        if !(*zeroing_started) {
+                            zero_buf!(buf);
+                            return Ok(buf.len());
+                        }
+                    }
+                }
+
                 let done = self.call_read(off + off_in_cls as u64, buf).await?;
 
                 // the host file may end inside one allocated cluster whose
